@@ -235,6 +235,8 @@ class Model:
             if k == "bool":
                 return len(text) & 1
             if k == "str":
+                if text == "noresult":
+                    raise Reject(tok, "parse callback hands back no value")     # (executor's callback convention)
                 return "<" + text + ">"
             if k == "ptr" and not (o.d.get("cb", 0) & 16):
                 return "unowned"    # no release function: the executor hands out static storage
